@@ -32,9 +32,10 @@ where
     T: Hash + Eq + Clone + Ord + Display + Send + Sync,
     A: Clone + Send + Sync,
 {
-    let neighbors_map = get_neighbors_of_nodes(node_names, graph);
-    neighbors_map
-        .clone()
+    // the neighbors of a requested node's neighbors are looked up too, so the
+    // lookup map must cover every node, not just the requested ones
+    let neighbors_map = get_neighbors_of_nodes(None, graph);
+    get_neighbors_of_nodes(node_names, graph)
         .into_iter()
         .map(|(v, v_nbrs)| get_triangles_and_degrees_for_node(v, v_nbrs, &neighbors_map))
         .collect()
